@@ -143,7 +143,7 @@ Definition hyp_ok (a : astore) (o : op) : bool :=
   match o with
   | OAppend i f => id_ok i && fresh i (a_live a) && negb (f_ctx f =? max128)
   | OImport f =>
-      id_ok (f_id f) && id_ok (f_ctx f) && negb (f_ctx f =? max128) && import_ok f (a_live a)
+      id_ok (f_id f) && id_ok (f_ctx f) && negb (f_ctx f =? max128)
       && (negb (registers f) || ttl_persistent (f_ttl f))
   | ORemove i | OGet i => id_ok i
   | OReadSync l _ c | ORead l _ c =>
@@ -154,8 +154,9 @@ Definition hyp_ok (a : astore) (o : op) : bool :=
   end.
 
 (* id 0 (which scru128 never produces) must not be the id of an xs.context frame: removing
-   such a frame would unregister the zero context (Store::remove deletes the frame's id from
-   the registry whatever it is) *)
+   such a frame - or overwriting it by an import under another topic - would unregister the zero
+   context (Store::remove and the overwrite path of insert_frame delete the frame's id from the
+   registry whatever it is) *)
 Definition nonzero_reg (o : op) : bool :=
   match o with
   | OAppend i f => negb (is_ctx_topic (f_topic f) && (i =? 0))
